@@ -193,7 +193,7 @@ impl UserBoundsList {
             .flatten()
             .collect();
 
-        if list.is_empty() {
+        if !list.iter().any(|bof| matches!(bof, BoundOrFiller::Bound(_))) {
             bail!("the complement is empty");
         }
 
